@@ -7,6 +7,13 @@ GT = "./internal/mysql/gtids"
 OPT = "./internal/app/optimization"
 
 REGISTRY = {
+    "C07": dict(
+        level="fault_enumeration",
+        units=[
+            dict(pkg=APP, test="TestVerifC07", quick=480, thorough=4000, shards_quick=16, shards_thorough=16),
+            dict(pkg=APP, test="TestVerifC07Enumerate", mode="enum", tiers=("thorough",), thorough=150, shards_thorough=16),
+        ],
+    ),
     "C01": dict(
         level="exploration",
         units=[dict(pkg=APP, test="TestVerifC01", quick=3200, thorough=100000, shards_quick=16, shards_thorough=16)],
